@@ -3,6 +3,12 @@ use super::mipmap::generate_mipmaps;
 use crate::types::*;
 use ::image::{DynamicImage, RgbaImage, imageops::FilterType};
 
+/// Upper limit for the compressed data that [`dxtn_to_image`] fills in with zeros when a
+/// mipmap stores less than its dimensions require. Enough to decode even an entirely
+/// missing 4096x4096 DXT5 level, while a header with absurd dimensions over a few bytes
+/// of data is refused instead of being allocated.
+const MAX_ZERO_PADDING: usize = 16 * 1024 * 1024;
+
 pub fn dxtn_to_image(
     header: &BlpHeader,
     image: &BlpDxtn,
@@ -20,7 +26,6 @@ pub fn dxtn_to_image(
     if width == 0 || height == 0 {
         return Err(mismatch());
     }
-    let size = (width as usize) * (height as usize) * 4;
 
     let decoder: texpresso::Format = image.format.into();
 
@@ -29,7 +34,19 @@ pub fn dxtn_to_image(
     // - DXT1: 8 bytes per block
     // - DXT3/DXT5: 16 bytes per block
     // Formula: ceil((width+3)/4) * ceil((height+3)/4) * block_size
-    let required_size = decoder.compressed_size(width as usize, height as usize);
+    //
+    // The dimensions come from the header, so the products are checked, and data
+    // may only be short of them by what the zero padding below is meant to cover.
+    let required_size = (width as usize)
+        .div_ceil(4)
+        .checked_mul((height as usize).div_ceil(4))
+        .and_then(|blocks| blocks.checked_mul(image.format.block_size()))
+        .filter(|&required| required.saturating_sub(raw_image.content.len()) <= MAX_ZERO_PADDING)
+        .ok_or_else(mismatch)?;
+    let size = (width as usize)
+        .checked_mul(height as usize)
+        .and_then(|pixels| pixels.checked_mul(4))
+        .ok_or_else(mismatch)?;
 
     // If the actual data is smaller than required, pad with zeros
     // This matches SereniaBLPLib behavior - small mipmaps often have undersized data
